@@ -1140,6 +1140,32 @@ func c09StrElem(v []byte) c09Elem {
 	return c09Elem{Kind: "string", Src: src, V: v}
 }
 
+// c09StrElemRaw: the property's spelling proper — "raw for valid UTF-8": ASCII control characters (NUL, tab, line break, DEL …)
+// are valid UTF-8 and stand raw between the quotes; only bytes that are not UTF-8 go through \xHH.
+func c09StrElemRaw(v []byte) c09Elem {
+	e := c09StrElem(v)
+	var o []byte
+	q := e.Src[1 : len(e.Src)-1]
+	for i := 0; i < len(q); i++ {
+		// undo \xHH for HH < 0x20 or 0x7f (what c09Quote wrote for control characters)
+		if q[i] == '\\' && i+3 < len(q) && q[i+1] == 'x' {
+			if b, ok := unhex(string(q[i+2 : i+4])); ok && len(b) == 1 && (b[0] < 0x20 || b[0] == 0x7f) {
+				o = append(o, b[0])
+				i += 3
+				continue
+			}
+		}
+		if q[i] == '\\' && i+1 < len(q) { // keep \\ and \' pairs intact
+			o = append(o, q[i], q[i+1])
+			i++
+			continue
+		}
+		o = append(o, q[i])
+	}
+	e.Src = append(append([]byte{'\''}, o...), '\'')
+	return e
+}
+
 func c09RandElem(r *Rng) (c09Elem, bool) {
 	var e c09Elem
 	switch r.Intn(10) {
@@ -1155,7 +1181,11 @@ func c09RandElem(r *Rng) (c09Elem, bool) {
 			e.Kind = "int"
 		}
 	default:
-		e = c09StrElem(c09RandBytes(r))
+		if r.Chance(1, 3) {
+			e = c09StrElemRaw(c09RandBytes(r))
+		} else {
+			e = c09StrElem(c09RandBytes(r))
+		}
 	}
 	e.Neg = r.Chance(2, 5)
 	return e, true
@@ -1245,6 +1275,11 @@ func runC09(w *W) {
 	for b := 0; b < 256; b++ {
 		one("byte", c09StrElem([]byte{byte(b)}))
 		one("byte-ctx", c09StrElem([]byte{'a', byte(b), 'b'}))
+		if b < 0x20 || b == 0x7f {
+			one("byte-raw", c09StrElemRaw([]byte{byte(b)}))
+			one("byte-raw-ctx", c09StrElemRaw([]byte{'a', byte(b), 'b'}))
+			nested("byte-raw-array", 'a', []c09Elem{c09StrElemRaw([]byte{'x', byte(b)}), c09StrElemRaw([]byte{byte(b), 'y'})})
+		}
 		nested("byte-array", 'a', []c09Elem{c09StrElem([]byte{byte(b)}), c09StrElem([]byte{'\\', byte(b)})})
 	}
 	one("empty", c09StrElem(nil))
